@@ -821,13 +821,25 @@ def np_atleast_2d(eng, st, args, kw, node):
 
 def np_isclose(eng, st, args, kw, node):
     """np.isclose(a, b, rtol=r, atol=0) under the contract option isclose_exact: a == b (exact real arithmetic; the relative tolerance only
-    absorbs rounding error, which the real-number model does not have).  Equal infinities compare close, as in numpy."""
+    absorbs rounding error, which the real-number model does not have) when atol == 0 and rtol <= 1e-9; any larger tolerance is modelled
+    as numpy defines it.  Equal infinities compare close, as in numpy."""
     if not getattr(eng.c, 'isclose_exact', False):
         raise OutOfSubset('np.isclose (floating-point tolerance) without the contract option isclose_exact')
-    if kw.get('atol', None) != 0 or len(args) != 2:
-        raise OutOfSubset('np.isclose form (atol must be 0)')
-    r = elementwise2(eng, st, lambda a, b: to_z3(a, REAL) == to_z3(b, REAL), args[0], args[1], esort=BOOL)
-    return r
+    if len(args) != 2:
+        raise OutOfSubset('np.isclose form')
+    rtol, atol = kw.get('rtol', 1e-5), kw.get('atol', 1e-8)
+    if not all(isinstance(t, (int, float)) for t in (rtol, atol)):
+        raise OutOfSubset('np.isclose with symbolic tolerances')
+    if atol == 0 and rtol <= 1e-9:
+        return elementwise2(eng, st, lambda a, b: to_z3(a, REAL) == to_z3(b, REAL), args[0], args[1], esort=BOOL)
+    # a genuine tolerance (numpy: |a - b| <= atol + rtol * |b|) is modelled as what it is
+    import fractions
+    rt, at = [z3.RealVal(str(fractions.Fraction(t).limit_denominator(10 ** 18))) for t in (rtol, atol)]
+
+    def close(a, b):
+        a, b = to_z3(a, REAL), to_z3(b, REAL)
+        return z3.Or(a == b, z3.And(a - b <= at + rt * z3.If(b >= 0, b, -b), b - a <= at + rt * z3.If(b >= 0, b, -b)))
+    return elementwise2(eng, st, close, args[0], args[1], esort=BOOL)
 
 
 def np_repeat(eng, st, args, kw, node):
